@@ -124,8 +124,15 @@ ChordHalfSurd(U, V, ab) == [h |-> HsHoriz(OnChord(U, V, ab)), nn |-> ChordNegNor
 \* geodesic with ideal end points U, V (neither at infinity): half-sphere centred on the boundary
 HsGeoCentre(U, V) == RScale(RHalf, RVAdd(HsHoriz(U), HsHoriz(V)))
 HsGeoRadSq(U, V) == RMul(<<1, 4>>, DistSqCD(HsHoriz(U), HsHoriz(V)))
-\* squared distance of the point X from the boundary point with horizontal coordinates m
-HsDistSq(X, m) == RAdd(DistSqCD(HsHoriz(X), m), HsHeightSq(X))
+\* the squared distance of the point X from the boundary point with horizontal coordinates m is r2
+\* (one common denominator D; evaluated only where the integers stay far from 2^31)
+HsDistSqIs(X, m, r2) ==
+  LET d == RVSub(HsHoriz(X), m)
+      D == Lcm(CommonDen(d), Abs(HsDen(X)))
+      e == D \div Abs(HsDen(X))
+      nums == [i \in 1..Len(d) |-> Numerators(d)[i] * (D \div CommonDen(d))]
+  IN (D <= GuardBnd /\ e <= 700 /\ NegNorm(X) <= 2000 /\ \A i \in 1..Len(d) : Abs(nums[i]) <= GuardBnd)
+       => R(Dot(nums, nums) + NegNorm(X) * e * e, D * D) = r2
 \* n = 2, from any two points with different horizontal coordinate: the boundary point equidistant from both
 HsCentre2(X, Y) ==
   LET x == HsHoriz(X)[1]
